@@ -48,11 +48,15 @@ enum Cons {
   kWaitTouch,
   kConnect,
   kDropFuture,
+  kConnectAttached,  // the downstream future already has a continuation when Connect is called
+  kConnectWaiter,    // a third fiber already blocks in Get on the downstream future when Connect is called
   kConsN
 };
 const char* const kProdName[] = {"Set(value)", "Set(error)", "Set(exception)", "drop-promise"};
 const char* const kConsName[] = {"ThenInline",  "Then(e)", "FutureOn::Detach", "DetachInline", "Detach(e)",
-                                 "Get&&",       "Get const& polled", "Wait+Touch",     "Connect",      "drop-future"};
+                                 "Get&&",       "Get const& polled", "Wait+Touch",     "Connect",      "drop-future",
+                                 "Connect(downstream continuation attached first)",
+                                 "Connect(downstream Get already blocked)"};
 const char* const kPayName[] = {"int", "move-only", "4-word-checksum"};
 
 template <typename P>
@@ -192,6 +196,8 @@ void Body(Ctx& cx, int ck, int ek) {
     }
   };
   bool expect_call = true;
+  yaclib_std::thread waiter;
+  bool has_waiter = false;
   cx.c_begin = ++cx.clock;
   switch (ck) {
     case kThenInline: {
@@ -315,12 +321,41 @@ void Body(Ctx& cx, int ck, int ek) {
       CheckResult<P>(cx, r);
       break;
     }
+    case kConnectAttached: {
+      auto [f2, p2] = yaclib::MakeContract<P, TErr>();
+      std::move(f2).DetachInline([&cx, guard](R&& r) {
+        guard.Use();
+        ++cx.calls;
+        CheckResult<P>(cx, r);
+      });
+      sample_ready(f);
+      yaclib::Connect(std::move(f), std::move(p2));
+      cx.c_end = ++cx.clock;
+      break;
+    }
+    case kConnectWaiter: {
+      auto [f2, p2] = yaclib::MakeContract<P, TErr>();
+      waiter = yaclib_std::thread([&cx, f2 = std::move(f2)]() mutable {
+        R r = std::move(f2).Get();
+        ++cx.calls;
+        CheckResult<P>(cx, r);
+      });
+      has_waiter = true;
+      vf::Point();
+      sample_ready(f);
+      yaclib::Connect(std::move(f), std::move(p2));
+      cx.c_end = ++cx.clock;
+      break;
+    }
     default: {
       sample_ready(f);
       { auto dropped = std::move(f); }
       cx.c_end = ++cx.clock;
       expect_call = false;
     }
+  }
+  if (has_waiter) {
+    waiter.join();
   }
   producer.join();
   if (server.joinable() && uses_exec && ek == 1) {
